@@ -334,6 +334,238 @@ theorem subst_aux (ρ : Env K) (m : Mapping) (hm : MapOK m) (ι₀ : IdxEnv) :
     simp only [substE, substL, key a (d, k) hk hnone, eval, hk, substEnv]
   · intro side ι aux c a hk hw _ _
     simp [WF, hk] at hw
-  all_goals (intros; trace_state; sorry)
+  -- 40-41 math functions
+  · intro side ι aux c fnk a h1 h2 h3 h4 h5 h6 h7 h8 n hn ih hw hg hc
+    have hwf : WF (.op fnk aux [a]) = (WF a && trueScalar a) := by
+      cases fnk <;> simp_all [WF, mathName]
+    have hsh : shape (.op fnk aux [a]) = [] := by
+      cases fnk <;> simp_all [shape, mathName]
+    have hgf : GradFree m (.op fnk aux [a]) = GradFree m a := by
+      cases fnk <;> simp_all [GradFree, GradFreeL, mathName]
+    have hev : ∀ (ρ' : Env K) (x : Expr), eval ρ' side ι (.op fnk aux [x]) c = ρ'.fn n (eval ρ' side ι x c) := by
+      intro ρ' x; cases fnk <;> simp_all [eval, mathName]
+    rw [hwf] at hw
+    simp only [Bool.and_eq_true, trueScalar, List.isEmpty_iff] at hw
+    obtain ⟨wa, sa, fa⟩ := hw
+    rw [hsh] at hc
+    rw [hgf] at hg
+    simp only [substE, substL]
+    rw [hev, hev, ih wa hg (by simp [sa] at hc ⊢; exact hc)]
+    rfl
+  · intro side ι aux c fnk a h1 h2 h3 h4 h5 h6 h7 h8 hn hw
+    cases fnk <;> simp_all [WF, mathName]
+  -- 42 anything else is outside the verified fragment
+  · intro side ι k aux args c
+    intros
+    intro hw
+    unfold WF at hw
+    split at hw <;> simp_all
+  -- 43-48 comparisons
+  · intro side ι aux a b iha ihb hw hg
+    simp only [WFC, Bool.and_eq_true, List.isEmpty_iff, trueScalar] at hw
+    obtain ⟨⟨⟨wa, wb⟩, sa, fa⟩, sb, fb⟩ := hw
+    simp only [GradFree, GradFreeL, Bool.and_true, Bool.and_eq_true] at hg
+    simp only [substE, substL, evalB]
+    rw [iha wa hg.1 (by simp [sa]), ihb wb hg.2 (by simp [sb])]
+    try rfl
+  · intro side ι aux a b iha ihb hw hg
+    simp only [WFC, Bool.and_eq_true, List.isEmpty_iff, trueScalar] at hw
+    obtain ⟨⟨⟨wa, wb⟩, sa, fa⟩, sb, fb⟩ := hw
+    simp only [GradFree, GradFreeL, Bool.and_true, Bool.and_eq_true] at hg
+    simp only [substE, substL, evalB]
+    rw [iha wa hg.1 (by simp [sa]), ihb wb hg.2 (by simp [sb])]
+    try rfl
+  · intro side ι aux a b iha ihb hw hg
+    simp only [WFC, Bool.and_eq_true, List.isEmpty_iff, trueScalar] at hw
+    obtain ⟨⟨⟨wa, wb⟩, sa, fa⟩, sb, fb⟩ := hw
+    simp only [GradFree, GradFreeL, Bool.and_true, Bool.and_eq_true] at hg
+    simp only [substE, substL, evalB]
+    rw [iha wa hg.1 (by simp [sa]), ihb wb hg.2 (by simp [sb])]
+    try rfl
+  · intro side ι aux a b ihb iha hw hg
+    simp only [WFC, Bool.and_eq_true, List.isEmpty_iff, trueScalar] at hw
+    obtain ⟨⟨⟨wa, wb⟩, sa, fa⟩, sb, fb⟩ := hw
+    simp only [GradFree, GradFreeL, Bool.and_true, Bool.and_eq_true] at hg
+    simp only [substE, substL, evalB]
+    rw [iha wa hg.1 (by simp [sa]), ihb wb hg.2 (by simp [sb])]
+    try rfl
+  · intro side ι aux a b ihb iha hw hg
+    simp only [WFC, Bool.and_eq_true, List.isEmpty_iff, trueScalar] at hw
+    obtain ⟨⟨⟨wa, wb⟩, sa, fa⟩, sb, fb⟩ := hw
+    simp only [GradFree, GradFreeL, Bool.and_true, Bool.and_eq_true] at hg
+    simp only [substE, substL, evalB]
+    rw [iha wa hg.1 (by simp [sa]), ihb wb hg.2 (by simp [sb])]
+    try rfl
+  · intro side ι aux a b iha ihb hw hg
+    simp only [WFC, Bool.and_eq_true, List.isEmpty_iff, trueScalar] at hw
+    obtain ⟨⟨⟨wa, wb⟩, sa, fa⟩, sb, fb⟩ := hw
+    simp only [GradFree, GradFreeL, Bool.and_true, Bool.and_eq_true] at hg
+    simp only [substE, substL, evalB]
+    rw [iha wa hg.1 (by simp [sa]), ihb wb hg.2 (by simp [sb])]
+    try rfl
+  -- 49-51 and / or / not
+  · intro side ι aux a b iha ihb hw hg
+    simp only [WFC, Bool.and_eq_true] at hw
+    simp only [GradFree, GradFreeL, Bool.and_true, Bool.and_eq_true] at hg
+    simp only [substE, substL, evalB]; rw [iha hw.1 hg.1, ihb hw.2 hg.2]
+  · intro side ι aux a b iha ihb hw hg
+    simp only [WFC, Bool.and_eq_true] at hw
+    simp only [GradFree, GradFreeL, Bool.and_true, Bool.and_eq_true] at hg
+    simp only [substE, substL, evalB]; rw [iha hw.1 hg.1, ihb hw.2 hg.2]
+  · intro side ι aux a ih hw hg
+    simp only [WFC] at hw
+    simp only [GradFree, GradFreeL, Bool.and_true, Bool.and_eq_true] at hg
+    simp only [substE, substL, evalB]; rw [ih hw hg]
+  -- 52-53 not a condition
+  · intro side ι k aux args
+    intros
+    intro hw
+    unfold WFC at hw
+    split at hw <;> simp_all
+  · intro side ι t
+    intros
+    intro hw
+    unfold WFC at hw
+    split at hw <;> simp_all
+  -- 54-56 component selection in a list tensor
+  · intro side ι n c _ _ _; simp [substL, evalNth]
+  · intro side ι x tail c ih hw hg hc
+    simp only [WFL, Bool.and_eq_true] at hw
+    simp only [GradFreeL, Bool.and_eq_true] at hg
+    simp only [substL, evalNth]
+    exact ih hw.1 hg.1 (hc x (by simp))
+  · intro side ι x xs n c ih hw hg hc
+    simp only [WFL, Bool.and_eq_true] at hw
+    simp only [GradFreeL, Bool.and_eq_true] at hg
+    simp only [substL, evalNth]
+    exact ih hw.2 hg.2 (fun y hy => hc y (by simp [hy]))
+
+/-! ## Property theorems -/
+
+/-- **C21 (substitution lemma).**  For every well-formed expression `e` (any size), every mapping of
+    terminals to images of the same shape, every valuation, side, index environment and component:
+    the substituted expression has the value of `e` under the valuation in which each mapped
+    terminal takes the value of its image — through restrictions (the image is evaluated on the
+    side the terminal is read on), variables, conditions and index notation. -/
+theorem C21_substitution (ρ : Env K) (m : Mapping) (hm : MapOK m) (ι₀ : IdxEnv) (side : Side) (ι : IdxEnv)
+    (e : Expr) (c : List Nat) (hw : WF e = true) (hg : GradFree m e = true) (hc : c.length = (shape e).length) :
+    eval ρ side ι (substE m e) c = eval (substEnv ρ m ι₀) side ι e c :=
+  (subst_aux ρ m hm ι₀).1 side ι e c hw hg hc
+
+/-- conditions are substituted consistently -/
+theorem C21_substitution_cond (ρ : Env K) (m : Mapping) (hm : MapOK m) (ι₀ : IdxEnv) (side : Side) (ι : IdxEnv)
+    (p : Expr) (hw : WFC p = true) (hg : GradFree m p = true) :
+    evalB ρ side ι (substE m p) = evalB (substEnv ρ m ι₀) side ι p :=
+  (subst_aux ρ m hm ι₀).2.1 side ι p hw hg
+
+/-- substitution keeps shape and free indices (the result can stand wherever `e` stood) -/
+theorem C21_shape_fi (m : Mapping) (hm : MapOK m) (e : Expr) (hw : WF e = true) :
+    shape (substE m e) = shape e ∧ fi (substE m e) = fi e :=
+  (subst_shape_fi m hm).1 e hw
+
+/- no mapped terminal occurs in the expression -/
+mutual
+def Untouched (m : Mapping) : Expr → Bool
+  | .term d => (m.get d.key).isNone
+  | .op _ _ args => UntouchedL m args
+  | _ => true
+def UntouchedL (m : Mapping) : List Expr → Bool
+  | [] => true
+  | a :: as => Untouched m a && UntouchedL m as
+end
+
+/- nothing the Replacer refuses or the model does not cover -/
+mutual
+def Plain : Expr → Bool
+  | .term d => d.cls != "@unsupported"
+  | .op k _ args => k != .coefficientDerivative && PlainL args
+  | _ => true
+def PlainL : List Expr → Bool
+  | [] => true
+  | a :: as => Plain a && PlainL as
+end
+
+mutual
+theorem beq_refl : ∀ a : Expr, beq a a = true
+  | .int _ | .real _ _ | .cplx _ _ _ _ | .zero _ _ | .mi _ | .term _ => by simp [beq]
+  | .op k x as => by simp [beq, beqL_refl as]
+theorem beqL_refl : ∀ as : List Expr, beqL as as = true
+  | [] => rfl
+  | a :: as => by simp [beqL, beq_refl a, beqL_refl as]
+end
+
+mutual
+theorem subst_untouched (m : Mapping) : ∀ e : Expr, Untouched m e = true → substE m e = e
+  | .int _, _ | .real _ _, _ | .cplx _ _ _ _, _ | .zero _ _, _ | .mi _, _ => by simp [substE]
+  | .term d, h => by
+    simp only [Untouched, Option.isNone_iff_eq_none] at h
+    simp [substE, h]
+  | .op k x as, h => by
+    simp only [Untouched] at h
+    simp [substE, substL_untouched m as h]
+theorem substL_untouched (m : Mapping) : ∀ as : List Expr, UntouchedL m as = true → substL m as = as
+  | [], _ => rfl
+  | a :: as, h => by
+    simp only [UntouchedL, Bool.and_eq_true] at h
+    simp [substL, subst_untouched m a h.1, substL_untouched m as h.2]
+end
+
+theorem plainL_no_unsupported : ∀ as : List Expr, PlainL as = true → as.any isUnsupported = false
+  | [], _ => rfl
+  | a :: as, h => by
+    simp only [PlainL, Bool.and_eq_true] at h
+    have ha : isUnsupported a = false := by
+      cases a <;> simp_all [isUnsupported, Plain]
+    simp [List.any_cons, ha, plainL_no_unsupported as h.2]
+
+mutual
+theorem replace_untouched (m : Mapping) : ∀ e : Expr, Untouched m e = true → Plain e = true → replaceE m e = some e
+  | .int _, _, _ | .real _ _, _, _ | .cplx _ _ _ _, _, _ | .zero _ _, _, _ | .mi _, _, _ => by simp [replaceE]
+  | .term d, h, _ => by
+    simp only [Untouched, Option.isNone_iff_eq_none] at h
+    simp [replaceE, h]
+  | .op k x as, h, hp => by
+    simp only [Untouched] at h
+    simp only [Plain, Bool.and_eq_true, bne_iff_ne, ne_eq] at hp
+    have hk : (k == Op.coefficientDerivative) = false := by simpa using hp.1
+    simp [replaceE, replaceL_untouched m as h hp.2, hk, plainL_no_unsupported as hp.2, beqL_refl as]
+theorem replaceL_untouched (m : Mapping) : ∀ as : List Expr, UntouchedL m as = true → PlainL as = true → replaceL m as = some as
+  | [], _, _ => rfl
+  | a :: as, h, hp => by
+    simp only [UntouchedL, Bool.and_eq_true] at h
+    simp only [PlainL, Bool.and_eq_true] at hp
+    simp [replaceL, replace_untouched m a h.1 hp.1, replaceL_untouched m as h.2 hp.2]
+end
+
+/-- **C21 (identity).**  An expression in which no mapped terminal occurs is returned unchanged
+    (the very same tree: `reuse_if_untouched` at every node), whatever the mapping contains. -/
+theorem C21_identity (m : Mapping) (e : Expr) (h : Untouched m e = true) (hp : Plain e = true) :
+    replaceE m e = some e ∧ substE m e = e :=
+  ⟨replace_untouched m e h hp, subst_untouched m e h⟩
+
+/-- **C21 (derivatives first).**  A `CoefficientDerivative` node whose operands were processed is
+    always refused ("Derivatives should be applied before executing replace"). -/
+theorem C21_rejects_unapplied_derivative (m : Mapping) (aux : List Nat) (args : List Expr) :
+    replaceE m (.op .coefficientDerivative aux args) = none := by
+  simp only [replaceE]
+  cases replaceL m args <;> simp
+
+/-- **C21 (shape check).**  A mapping with an image of a different shape is refused by the check
+    performed before any substitution. -/
+theorem C21_rejects_shape (m : Mapping) (shapeOf : String → Option (List Nat)) (key : String) (img : Expr) (sh : List Nat)
+    (hmem : (key, img) ∈ m) (hs : shapeOf key = some sh) (hne : sh ≠ shape img) : shapesOK m shapeOf = false := by
+  simp only [shapesOK, List.all_eq_false]
+  refine ⟨(key, img), hmem, ?_⟩
+  simp [hs, hne]
+
+/-- non-vacuity: a concrete mapping and expression meeting the hypotheses of `C21_substitution`,
+    with a visible effect (f ↦ g+g inside f*f under a restriction) -/
+def exF : Expr := .term { cls := "Coefficient", key := "f", shape := [] }
+def exG : Expr := .term { cls := "Coefficient", key := "g", shape := [] }
+def exM : Mapping := [("f", .op .sum [] [exG, exG])]
+def exE : Expr := .op .positiveRestricted [] [.op .product [] [exF, exF]]
+example : WF exE = true ∧ GradFree exM exE = true ∧ Untouched exM exE = false := by decide
+example : beq (substE exM exE) (.op .positiveRestricted [] [.op .product [] [.op .sum [] [exG, exG], .op .sum [] [exG, exG]]]) = true := by
+  decide
 
 end UflVerif.C21
